@@ -63,6 +63,10 @@ func genRigCase(r *rng.R) rigIn {
 		{Kind: "struct", Name: "Meta", Pkg: "ctl", File: "types.go", Fields: []pField{{Name: "Note", Type: "string", Tag: `json:"note"`}}},
 		{Kind: "struct", Name: "Wrap", Pkg: "ctl", File: "types.go", Fields: []pField{{Name: "Meta", Type: "Meta", Tag: `json:"meta" validate:"required"`}, {Name: "Name", Type: "string", Tag: `json:"name" validate:"required"`}}},
 		{Kind: "struct", Name: "Failure", Pkg: "ctl", File: "types.go", Fields: []pField{{Name: "Err", Type: "error", Tag: `json:"-"`}, {Name: "Code", Type: "int", Tag: `json:"code"`}}},
+		// a custom error type (it EMBEDS error): methods return it by value or by address, next to a payload that is by value or by address
+		{Kind: "struct", Name: "Problem", Pkg: "ctl", File: "types.go", Fields: []pField{{Type: "error", Embedded: true}, {Name: "Code", Type: "int", Tag: `json:"code"`}}},
+		// a generic struct instantiated with a slice type argument as a JSON body
+		{Kind: "struct", Name: "Page[T any]", Pkg: "ctl", File: "types.go", Fields: []pField{{Name: "Items", Type: "T", Tag: `json:"items"`}}},
 	}
 	p.Config.Globs = []string{"./ctl/*.go"}
 	p.Config.EnumValidator, p.Config.TopLevelEnum, p.Config.ValidateResp = r.Chance(1, 3), r.Chance(1, 3), r.Chance(1, 3)
@@ -191,8 +195,12 @@ func genRigCase(r *rng.R) rigIn {
 					} else if !firstBody && p.Config.EnumValidator && r.Chance(1, 2) {
 						bt = "Employee"
 					}
+					if !firstBody && !enumBody && r.Chance(1, 6) {
+						bt = "Page[[]string]"
+					}
 					if enumBody {
 						bt = "Employee"
+					} else if bt == "Page[[]string]" {
 					} else if !firstBody && !strings.HasPrefix(bt, "[]") && bt != "Employee" && r.Chance(1, 4) {
 						bt = "Wrap"
 					}
@@ -245,6 +253,11 @@ func genRigCase(r *rng.R) rigIn {
 				m.Results = []string{"string", "error"}
 			case 1:
 				m.Results = []string{"Item", "error"}
+			}
+			if r.Chance(1, 4) {
+				// custom error results: every pointer / value pairing of payload and error must compile
+				m.Results = rng.Pick(r, [][]string{{"Item", "*Problem"}, {"*Item", "Problem"}, {"Item", "Problem"}, {"*Item", "*Problem"}, {"Problem"}, {"*Problem"}, {"string", "*Problem"}})
+				m.Fail = false
 			}
 			if r.Chance(1, 5) {
 				m.Annots = append(m.Annots, pAnnot{Name: "Response", Value: rng.Pick(r, []string{"201", "202"})})
@@ -305,6 +318,10 @@ func genRigCase(r *rng.R) rigIn {
 						if prm.ty == "Wrap" {
 							q.Body = fmt.Sprintf(`{"meta":{"note":%q},"name":"w"}`, rng.Pick(r, []string{"n", ""}))
 						}
+						if prm.ty == "Page[[]string]" {
+							q.Body = rng.Pick(r, []string{`{"items":["a","b"]}`, `{"items":[]}`, `{"items":["x y"]}`})
+							q.BodyType = "Page"
+						}
 						if b, ok := over["body"]; ok {
 							q.Body = b
 						}
@@ -323,12 +340,22 @@ func genRigCase(r *rng.R) rigIn {
 				return q
 			}
 			add(build("happy", nil, "", nil))
+			if hb := build("happy-chunked", nil, "", nil); hb.Body != "" && hb.Form == nil {
+				hb.Chunked = true // the same body, sent without a Content-Length
+				add(hb)
+			}
 			if len(routeSec) > 0 {
 				all := []string{}
 				for _, alt := range routeSec {
 					all = append(all, alt[0].Name)
 				}
 				add(build("deny-all", nil, "", all))
+				da := build("deny-all-abort", nil, "", all)
+				if da.Headers == nil {
+					da.Headers = map[string]string{}
+				}
+				da.Headers["X-Rig-Abort"] = "1" // gin's callback also aborts the context when it refuses
+				add(da)
 				dn := build("deny-all-nil-context", nil, "", all)
 				dn.NilCtx = true
 				add(dn)
@@ -340,6 +367,10 @@ func genRigCase(r *rng.R) rigIn {
 				}
 				if len(routeSec) > 1 {
 					add(build("deny-first", nil, "", []string{routeSec[0][0].Name}))
+					// every alternative refused, each with its own status: the answer is the LAST refusal's
+					sp := build("deny-all-spread", nil, "", all)
+					sp.DenyStatus, sp.Spread = 470, true
+					add(sp)
 				}
 				add(build("deny-other", nil, "", []string{"nosuch"}))
 			}
@@ -388,11 +419,11 @@ func genRigCase(r *rng.R) rigIn {
 				if base == "bool" && r.Chance(1, 2) {
 					add(build("bool-bad:"+prm.name, vals{prm.name: rng.Pick(r, []string{"yes", "2", "tRuE"})}, "", nil))
 				}
-				if base == "string" && prm.loc != "Body" && r.Chance(1, 2) {
+				if base == "string" && prm.loc != "Body" && (prm.loc == "Query" || r.Chance(1, 2)) {
 					if prm.loc == "Path" {
 						add(build("encoded-path:"+prm.name, vals{prm.name: "a b", "raw:" + prm.name: rng.Pick(r, []string{"a%20b", "%41bc", "caf%C3%A9"})}, "", nil))
 					} else {
-						add(build("special:"+prm.name, vals{prm.name: rng.Pick(r, []string{"a&b=c", "x+y", "café"})}, "", nil))
+						add(build("special:"+prm.name, vals{prm.name: rng.Pick(r, []string{"a&b=c", "x+y", "café", "+15550100", "100%41", "20%2C5"})}, "", nil))
 					}
 				}
 				if base == "string" && prm.loc != "Path" && prm.loc != "Body" && r.Chance(1, 3) {
@@ -413,7 +444,13 @@ func genRigCase(r *rng.R) rigIn {
 			for _, prm := range params {
 				bodyIsWrap = bodyIsWrap || prm.ty == "Wrap"
 			}
-			if bodyKind == "json" && bodyIsWrap {
+			bodyIsPage := false
+			for _, prm := range params {
+				bodyIsPage = bodyIsPage || prm.ty == "Page[[]string]"
+			}
+			if bodyKind == "json" && bodyIsPage {
+				add(build("body-malformed", vals{"body": `{"items":`}, "", nil))
+			} else if bodyKind == "json" && bodyIsWrap {
 				add(build("body-nested-struct-absent", vals{"body": `{"name":"w"}`}, "", nil))
 				add(build("body-nested-struct-empty", vals{"body": `{"meta":{},"name":"w"}`}, "", nil))
 				add(build("body-nested-struct-null", vals{"body": `{"meta":null,"name":"w"}`}, "", nil))
